@@ -18,6 +18,7 @@ def gen(rng):
          "wait": [50, 500] if rng.random() < 0.1 else None, "horizon": 1000}
     if op == "traverse" and pos and rng.random() < 0.2:
         p["fn_raise"] = rng.randrange(1, len(pos) + 1)
+        p["fn_raise_type"] = rng.choice(["user", "user", "stop", "key"])
     if op == "sequence" and rng.random() < 0.3:
         p["iter"] = True
     return p
